@@ -144,6 +144,7 @@ Fixpoint go (c i : Z) (s : state) (g : ghosts) (a : blockacc) (l : list (op * ex
     let r := add_trg c i 2 (trig_negative o) r in
     let r := add_trg c i 3 (trig_deleted_with_stake s o) r in
     let r := add_trg c i 4 (trig_penalty_not_atomic s o) r in
+    let r := add_trg c i 6 (trig_postponed_blocked s o) r in
     match e with
     | ETx ok_obs dbal fset =>
       let r := add_trg c i 5 (withdraw_sidestep s o fset) r in
